@@ -6,7 +6,7 @@ import BumpProof.Lemmas.MemOps
 
 set_option linter.unusedSimpArgs false
 
-namespace Arena
+namespace Arena.Mem
 open Rs
 
 theorem down_align_le {a al r : Nat} (h : Gen.SizeConfig.down_align a al = .ok r) : r ≤ a := by
@@ -79,8 +79,8 @@ theorem newChunk_wfPres {cfg : Cfg} {s s' : State} {size : Nat} {r : Except AErr
       intro c hcm d hd
       simp only [List.mem_singleton] at hd
       subst hd
-      have := hfr c.shape (List.mem_map_of_mem hcm)
-      simp only [freshChunk, Chunk.shape] at this ⊢
+      have := hfr c.memShape (List.mem_map_of_mem hcm)
+      simp only [freshChunk, Chunk.memShape] at this ⊢
       omega
     · intro c hcm
       rcases List.mem_append.mp hcm with h1 | h1
@@ -349,4 +349,4 @@ def RespsSane (cfg : Cfg) (s : State) (resps : List BaseResp) : Prop :=
     | _, _ => True)
 
 
-end Arena
+end Arena.Mem
